@@ -9,6 +9,8 @@ Tie: `net` correspondence on reversed records, paired real runs compared bitwise
 -/
 import MTProofs.Graph
 import MTProofs.Select
+import MTProofs.MassBalance
+import MTProps.C02
 
 namespace MTProps.C11
 open MT MTProofs
@@ -105,6 +107,57 @@ theorem sweep_ignores_v (assort : Bool) (K : Nat) (nv : NetView) (hdir : nv.dire
   simp only [hdir, Bool.false_eq_true, ↓reduceIte]
 
 end
+
+/-! ### symmetric affinity (over ℝ) -/
+
+section symmetric
+open Finset
+
+/-- with symmetric multiplicities and a symmetric affinity the rate is symmetric -/
+theorem rate_symm (K : Nat) (w : Nat → Nat → Nat → ℝ) (hw : ∀ k q a, w k q a = w q k a)
+    (u : Nat → Nat → ℝ) (i j a : Nat) : rate false K w u u i j a = rate false K w u u j i a := by
+  unfold rate gsum
+  simp only [Bool.false_eq_true, ↓reduceIte]
+  rw [sum_comm]
+  apply sum_congr rfl; intro q _
+  apply sum_congr rfl; intro k _
+  rw [hw k q a]; ring
+
+/-- **the affinity step preserves symmetry** in undirected mode (single membership matrix, one shared
+vertex list, symmetric multiplicities) -/
+theorem specWEntry_symm (K N : Nat) (U : List Nat) (out : Nat → Nat → List Nat)
+    (hA : ∀ a i j, (out a i).count j = (out a j).count i)
+    (u : Nat → Nat → ℝ) (w : Nat → Nat → Nat → ℝ) (hw : ∀ k q a, w k q a = w q k a) (k q a : Nat) :
+    specWEntry false K N U U out u u w k q a = specWEntry false K N U U out u u w q k a := by
+  have hZ : specWZ U U u u k q = specWZ U U u u q k := by unfold specWZ; ring
+  have hacc : specWAcc false K N out u u w k q a = specWAcc false K N out u u w q k a := by
+    unfold specWAcc
+    simp only [mul_sum]
+    rw [sum_comm]
+    apply sum_congr rfl; intro j _
+    apply sum_congr rfl; intro i _
+    rw [hA a i j, rate_symm K w hw u i j a]
+    split <;> ring
+  unfold specWEntry
+  rw [hZ, hacc, hw k q a]
+
+/-- on the model's states: an undirected general sweep maps a symmetric affinity to a symmetric one
+(the u-step does not touch `w`; the random start is symmetric by C17 `random_affinity_symmetric`) -/
+theorem w_symmetric_invariant (K : Nat) (nv : NetView) (s : State ℝ) (hd : nv.directed = false)
+    (hwf : MTProps.C02.ViewWF nv s.u.R) (hA : ∀ a i j, (nv.out a i).count j = (nv.out a j).count i)
+    (hlist : nv.vList = nv.uList)
+    (hsym : ∀ k q a, wView false false s.w k q a = wView false false s.w q k a)
+    {k q a : Nat} (hk : k < K) (hq : q < K) (ha : a < nv.nL) :
+    (sweep false K nv s).w.get k q a = (sweep false K nv s).w.get q k a := by
+  unfold sweep
+  rw [MTProps.C02.stepV_undirected false K nv _ hd]
+  have h1 := MTProps.C02.stepW_entry_general K nv (stepU false K nv s) hwf hk hq ha
+  have h2 := MTProps.C02.stepW_entry_general K nv (stepU false K nv s) hwf hq hk ha
+  rw [h1, h2]
+  simp only [hd, Bool.false_eq_true, ↓reduceIte, hlist]
+  exact specWEntry_symm K _ nv.uList nv.out hA _ _ hsym k q a
+
+end symmetric
 
 /-- non-vacuity: `(7,5)` reversed after both endpoints were seen; the networks coincide -/
 example :
